@@ -772,6 +772,64 @@ def gen_hist(rng, N):
             lines.append(l)
     return lines
 
+# ---- the in-place mutators of a combination (a[i] = (c, P), the cursor of an unfinished iteration, copies edited afterwards)
+# between two rounds of observations: whatever an observation remembered (a simplified form, a printed text, a matrix) must
+# not outlive the edit.  Judged on the implementation alone: every observation of the edited object must equal that of a
+# combination freshly built from the terms it now holds (integers / Gaussian integers only: exact).
+def inplace_handle(line):
+    import copy as _copy
+    from paulie.common.pauli_string_linear import PauliStringLinear
+    from paulie.common.pauli_string_bitarray import PauliString
+    try:
+        _, n, seed = line.split(" ")
+        n = int(n)
+        r = random.Random("inplace:" + line)
+        def term():
+            c = r.choice([1, -1, 2, -2, 3, 1j, -1j, 2j, 0, 1 + 1j])
+            return (c, "".join(r.choice("IXYZ") for _ in range(n)))
+        terms = [term() for _ in range(r.randint(1, 4))]
+        if r.random() < 0.3:
+            terms.append((-(terms[0][0]), terms[0][1]))            # cancelling pair
+        x = PauliStringLinear([(c, PauliString(pauli_str=p)) for c, p in terms])
+        def fresh():
+            return PauliStringLinear([(c, PauliString(pauli_str=p)) for c, p in terms])
+        def observe(when):
+            a, b = impl_linear.obs(x), impl_linear.obs(fresh())
+            if a != b:
+                fa, fb = a.split(" | "), b.split(" | ")
+                d = next((u + "  vs fresh  " + v for u, v in zip(fa, fb) if u != v), a[:200])
+                return f"{when}: combination holding {terms} observed as [{d[:300]}]"
+            eq = impl_linear.guard(lambda: x == fresh())
+            if eq is not True:
+                return f"{when}: combination holding {terms} == a fresh combination of the same terms answers {eq}"
+            return None
+        why = observe("before any edit")
+        if why:
+            return why
+        for step in range(r.randint(1, 4)):
+            k = r.randrange(5)
+            if k <= 2:
+                i = r.randrange(len(terms)); t = term()
+                x[i] = (t[0], PauliString(pauli_str=t[1])); terms[i] = t
+                what = f"a[{i}] = {t}"
+            elif k == 3:
+                it = iter(x); next(it, None)                                  # an unfinished traversal
+                what = "an unfinished iteration"
+            else:
+                y = x.copy(); z = _copy.copy(x)
+                t = term()
+                y[0] = (t[0], PauliString(pauli_str=t[1])); z += PauliStringLinear([(1, PauliString(pauli_str=t[1]))])
+                what = "edits of copies"
+            why = observe(f"after {what} (step {step + 1})")
+            if why:
+                return why
+        return "ok"
+    except Exception as e:
+        return exc_name(e)
+
+def gen_inplace(rng, k):
+    return [f"inplace {rng.choice([1, 1, 2, 2, 3])} {j}" for j in range(k)]
+
 def gen_exhaustive(thorough):
     coefs = [(Fraction(1), Fraction(0)), (Fraction(-1), Fraction(0)), (Fraction(0), Fraction(1))]
     strs = ["I", "X", "Y"] if not thorough else ["I", "X", "Y", "Z"]
@@ -919,6 +977,8 @@ def build_streams(rng, tier):
         Stream("histories", gen_hist(rng, 12000 if thorough else 700), h, oracle, **kw),
         Stream("malformed", gen_malformed(rng, 4000 if thorough else 500), h, oracle, **kw),
         Stream("generic-float", gen_float(rng, 50000 if thorough else 1500), h, oracle_float, model=False, **kw),
+        Stream("terms-replaced-in-place-between-observations", gen_inplace(rng, 4000 if thorough else 500), inplace_handle,
+               oracle=lambda l, o: None if o == "ok" else o, model=False, tag=lambda l, o: "inplace:" + ("ok" if o == "ok" else "bad")),
     ]
 
 RULE = ("corpus witnesses; exhaustive pairs of combinations of <=2 terms over {1,-1,i}x{I,X,Y} and all 256 pairs of 2-qubit "
@@ -953,6 +1013,10 @@ def main(tier):
 def replay(path):
     r = json.load(open(path))
     line = r.get("line")
+    if line.startswith("inplace "):
+        out = inplace_handle(line)
+        print("line:", line); print("oracle:", "holds" if out == "ok" else out)
+        return 0 if out == "ok" else 1
     out = impl_linear.handle(line)
     fl = "x" in line.split(" ", 1)[1].replace("X", "")
     why = oracle(line, out, 1e-9 if fl else 0.0)
